@@ -107,17 +107,28 @@ class RecordStreamReader:
     def readheader(self):
         # Manually read the msgpack format to avoid unserializing invalid data
         # we read size (4) + msgpack type (2) + msgpack bytes (recordstream magic)
-        header = self.fp.read(4 + 2 + len(RECORDSTREAM_MAGIC))
+        header = self._read_exact(4 + 2 + len(RECORDSTREAM_MAGIC))
         if not header.endswith(RECORDSTREAM_MAGIC):
             raise IOError("Unknown file format, not a RecordStream")
 
+    def _read_exact(self, size):
+        """Read ``size`` bytes. A raw stream (a decompressor at a frame boundary, a pipe) may hand out less than asked
+        for while more is to come, only an empty read is the end of the stream."""
+        data = self.fp.read(size)
+        while 0 < len(data) < size:
+            chunk = self.fp.read(size - len(data))
+            if not chunk:
+                break
+            data += chunk
+        return data
+
     def read(self):
-        d = self.fp.read(4)
+        d = self._read_exact(4)
         if len(d) != 4:
             raise EOFError()
 
         size = struct.unpack(">I", d)[0]
-        d = self.fp.read(size)
+        d = self._read_exact(size)
         if len(d) != size:
             # The frame is incomplete (truncated or damaged stream), what is left must not be taken for a frame
             raise EOFError()
